@@ -17,6 +17,8 @@ structure Agree (cx : Ctx) (env : Ast.Env) : Prop where
   res : ∀ x, env.res (cx.name x) = some x
   vty : env.vty = cx.vty
   fres : ∀ f, env.fres (cx.funcName f) = some f
+  /-- no user function is called like a built-in the exporter invokes by name (reserved names, C15) -/
+  builtin : ∀ i name, RsslVerif.Gen.HlslIntrinsicTables.intrinsicForm i = .invoke name → env.fres name = none
 
 /-- emitted expression `a` simulates IR expression `e` of type `t` -/
 def Sim (W : World) (env : Ast.Env) (e : Ir.Expr) (a : HlslAst.Expr) (t : Ty) : Prop :=
@@ -28,7 +30,7 @@ theorem findArm_uint (v : Int) : findArm .UInt32 v = some (.widen .IntUnsigned32
   simp [findArm, literalArms, guardHolds]
 theorem findArm_f32 : findArm .Float32 0 = some (.plain .Float32) := by decide
 theorem findArm_flit : findArm .FloatLiteral 0 = some (.plain .FloatUntyped) := by decide
-theorem findArm_int32_neg (v : Int) (h : v < 0) : findArm .Int32 v = some (.negMinus .IntUntyped) := by
+theorem findArm_int32_neg (v : Int) (h : v < 0) : findArm .Int32 v = some (.negMinusAbs .IntUntyped) := by
   simp [findArm, literalArms, guardHolds, h]
 theorem findArm_int32_nonneg (v : Int) (h : ¬ v < 0) : findArm .Int32 v = some (.widen .IntUntyped) := by
   simp [findArm, literalArms, guardHolds, h]
@@ -90,15 +92,11 @@ theorem sim_lit (W : World) (env : Ast.Env) (c : Const) (a : HlslAst.Expr)
       · simp [genLiteral, Const.kind, Const.intValue, findArm_intLit_big v h1 h2] at hg
   | int32 v =>
     by_cases h1 : v.toInt < 0
-    · by_cases hm : v = BitVec.intMin 32
-      · simp [genLiteral, Const.kind, Const.intValue, findArm_int32_neg _ h1, negMagnitude, hm] at hg
-        rw [← hm] at hg
-        simp [findArm_int32_neg _ h1] at hg
-      · simp [genLiteral, Const.kind, Const.intValue, findArm_int32_neg _ h1, negMagnitude, hm] at hg
-        subst hg
-        simp [Sim, Ast.typeOf, Ast.litTy, astTy, Ir.litlike, Const.ty, Ast.eval, Ir.eval, Ast.litVal, Ir.constVal, astVal,
-          astUnSem, Ast.convR, Ast.convert, unop]
-        omega
+    · simp [genLiteral, Const.kind, Const.intValue, findArm_int32_neg _ h1, negMagnitude] at hg
+      subst hg
+      simp [Sim, Ast.typeOf, Ast.litTy, astTy, Ir.litlike, Const.ty, Ast.eval, Ir.eval, Ast.litVal, Ir.constVal, astVal,
+        astUnSem, Ast.convR, Ast.convert, unop]
+      omega
     · simp [genLiteral, Const.kind, Const.intValue, findArm_int32_nonneg _ h1, mkLit, Except.map] at hg
       subst hg
       have : ((v.toNat : Nat) : Int) = v.toInt := by
